@@ -93,3 +93,46 @@ package storagewrappers
 //@     after call storage.RelationshipTupleReader.ReadStartingWithUser args _, _, a_store, a_filter, a_opts returning it, e : innerCalled = true ; innerIt = it ; innerErr = e ; innerStore = a_store ; innerFilter = a_filter ; innerOpts = a_opts
 //@     before call (*storagewrappers.CachedTupleReader).tryGetFromCache | storagewrappers.newCachingIterator | storage.InMemoryCache.* | storage.Read*Key : assert opts.Consistency.Preference != openfgav1.ConsistencyPreference_HIGHER_CONSISTENCY
 
+
+// ------------------------------------------------------------------ C11: validity tests of the iterator caches
+
+// an invalidation marker stored under k that is newer than time t
+//@ spec markerNewer(cache iface, k S_keys.Key, t S_time.Time) bool = typeIs(gmap("cache", cache, k), "*storage.InvalidEntityCacheEntry") && ts(t) < ts(as(gmap("cache", cache, k), "*storage.InvalidEntityCacheEntry").LastModified)
+
+//@ func isInvalidAt(cache, ts, invalidStore, invalidEntityKeys) (b)
+//@   property C11
+//@   option nosafety
+//@   modifies nothing
+//@   loop 0 invariant forall j :: 0 <= j && j <= $idx ==> !markerNewer(cache, invalidEntityKeys[j], ts)
+//@   ensures @anyMarker b ==> (markerNewer(cache, invalidStore, ts) || exists i :: 0 <= i && i < len(invalidEntityKeys) && markerNewer(cache, invalidEntityKeys[i], ts))
+//@   ensures @noMarker !b ==> !markerNewer(cache, invalidStore, ts) && (forall i :: 0 <= i && i < len(invalidEntityKeys) ==> !markerNewer(cache, invalidEntityKeys[i], ts))
+
+// "no entry populated before an invalidation marker is served": an entry is returned only if it is the iterator entry
+// stored under key and no store-wide or entity marker is newer than it; a stale entry is deleted, nothing else is touched
+//@ func findInCache(cache, key, storeKey, invalidEntityKeys) (e, ok)
+//@   property C11
+//@   option nosafety
+//@   modifies GM:cache
+//@   ensures @served ok ==> e != nil && typeIs(old(gmap("cache", cache, key)), "*storage.TupleIteratorCacheEntry") && e == as(old(gmap("cache", cache, key)), "*storage.TupleIteratorCacheEntry") && !old(markerNewer(cache, storeKey, e.LastModified)) && (forall i :: 0 <= i && i < len(invalidEntityKeys) ==> !old(markerNewer(cache, invalidEntityKeys[i], e.LastModified)))
+//@   ensures @notServed !ok ==> e == nil
+
+// second iterator cache (CachedTupleReader): same statement with strict "marker after entry"
+//@ spec markerAfter(cache iface, k S_keys.Key, t S_time.Time) bool = typeIs(gmap("cache", cache, k), "*storage.InvalidEntityCacheEntry") && ts(as(gmap("cache", cache, k), "*storage.InvalidEntityCacheEntry").LastModified) > ts(t)
+
+//@ func (*CachedTupleReader).isCacheEntryInvalidated(c, invalidKey, lastModified) (b)
+//@   property C11
+//@   option nosafety
+//@   modifies nothing
+//@   ensures b <==> markerAfter(c.cache, invalidKey, lastModified)
+
+//@ func (*CachedTupleReader).isStoreInvalidated(c, storeID, lastModified) (b)
+//@   property C11
+//@   option nosafety
+//@   modifies nothing
+//@   ensures b <==> markerAfter(c.cache, storage.InvalidIteratorCacheKey(storeID), lastModified)
+
+//@ func (*CachedTupleReader).tryGetFromCache(c, cacheKey, storeID, objectType, relation, operation, invalidEntityKeys) (it)
+//@   property C11
+//@   option nosafety
+//@   ensures @served it != nil ==> typeIs(old(gmap("cache", c.cache, cacheKey)), "*storagewrappers.V2IteratorCacheEntry") && !old(markerAfter(c.cache, storage.InvalidIteratorCacheKey(storeID), as(gmap("cache", c.cache, cacheKey), "*storagewrappers.V2IteratorCacheEntry").LastModified)) && (forall i :: 0 <= i && i < len(invalidEntityKeys) ==> !old(markerAfter(c.cache, invalidEntityKeys[i], as(gmap("cache", c.cache, cacheKey), "*storagewrappers.V2IteratorCacheEntry").LastModified)))
+//@   loop 0 invariant forall j :: 0 <= j && j <= $idx ==> !old(markerAfter(c.cache, invalidEntityKeys[j], as(gmap("cache", c.cache, cacheKey), "*storagewrappers.V2IteratorCacheEntry").LastModified))
